@@ -202,6 +202,9 @@ def isoDtcFormat : Consts := [
   ("ISO15031_6", 0x00), ("SAE_J2012_DA_DTCFormat_00", 0x00), ("ISO14229_1", 0x01), ("SAE_J1939_73", 0x02),
   ("ISO11992_4", 0x03), ("SAE_J2012_DA_DTCFormat_04", 0x04)]
 
+/-- FunctionalGroupIdentifier values of ISO 14229-1 Annex D (table D.15), as the library spells them -/
+def isoFunctionalGroup : Consts := [("EMISSIONS_SYSTEM_GROUP", 0x33), ("SAFETY_SYSTEM_GROUP", 0xD0), ("VOBD_SYSTEM", 0xFE)]
+
 /-- names of all constants (of a name-sorted constant list) whose value is `c` -/
 def namesFor (t : Consts) (c : Nat) : List String := (t.filter (fun m => m.2 == c)).map (·.1)
 
